@@ -28,6 +28,10 @@ CONFIGS = [
     {"kind": "hdd", "fs": "tmpfs", "threads": None},
     {"kind": None, "fs": "ext4", "threads": ["main:1", "default:1,1"]},
     {"kind": "ssd", "fs": "tmpfs", "threads": ["main:1"], "inputs": "stdin"},
+    # searches in which a file can be reported without the contents stage having read it: a file that is alone in its
+    # class (--unique), or no contents stage at all (--skip-content-hash: classes by size, prefix and suffix)
+    {"kind": "ssd", "fs": "ext4", "threads": None, "rf": ("unique", None)},
+    {"kind": "ssd", "fs": "ext4", "threads": None, "skip_content_hash": True},
 ]
 
 # with "inputs": "stdin" the same files are handed over as a list of directories and single files on standard input
@@ -66,7 +70,8 @@ def scenario_spec(si):
 
 
 def run_group(cfg, troot, home, plan, log, inputs=None):
-    o = {"hash_fn": "metro", "kind": cfg["kind"], "threads": cfg["threads"]}
+    o = {"hash_fn": "metro", "kind": cfg["kind"], "threads": cfg["threads"], "rf": cfg.get("rf"),
+         "skip_content_hash": cfg.get("skip_content_hash")}
     env = shimlog.shim_env(log, [troot], plan)
     if inputs:
         return gm.run_group(o, [], troot, home, extra_args=["--stdin"], stdin=("\n".join(inputs) + "\n").encode(),
@@ -74,18 +79,34 @@ def run_group(cfg, troot, home, plan, log, inputs=None):
     return gm.run_group(o, ["r0"], troot, home, extra_env=env, timeout=60)
 
 
-def file_table(troot):
+def coarse_key(p):
+    """--skip-content-hash compares size, beginning and end only (the tree's one-byte variants differ in the middle)."""
+    import hashlib
+    with open(p, "rb") as f:
+        b = f.read()
+    return (len(b), hashlib.sha256(b[:4096]).hexdigest(), hashlib.sha256(b[-4096:]).hexdigest())
+
+
+def file_table(troot, cfg=None):
     roots_abs = [fse(os.path.join(troot, "r0"))]
     scanned = gm.scan_plain(roots_abs)
+    if cfg and cfg.get("skip_content_hash"):
+        return {p: {"key": coarse_key(p), "id": fid} for p, fid in scanned.items()}
     return {p: {"key": gm.file_key(p, {}), "id": fid} for p, fid in scanned.items()}
 
 
-def restrict(groups, dontcare, files):
-    """Removes don't-care paths from reported groups and drops groups that fall to <=1 replica."""
+def restrict(groups, dontcare, files, singles=False):
+    """Removes don't-care paths from reported groups and drops groups that fall to <=1 replica (under --unique:
+    groups that contained a don't-care path at all, since their being reported depended on it)."""
     out = set()
+    dc_keys = {files[p]["key"] for p in dontcare if p in files}
     for g in groups:
         rest = frozenset(p for p in g if p not in dontcare)
-        if len({files[p]["id"] for p in rest if p in files}) > 1:
+        if singles:
+            # whether a class is reported under --unique depends on how many of its members were seen
+            if rest == g and not any(files[p]["key"] in dc_keys for p in g if p in files):
+                out.add(rest)
+        elif len({files[p]["id"] for p in rest if p in files}) > 1:
             out.add(rest)
     return out
 
@@ -100,8 +121,9 @@ def run_case(arg):
         home = os.path.join(d, "home")
         spec = scenario_spec(si)
         tree.materialise(spec, troot)
-        files = file_table(troot)
-        full = gm.expected_partition(files, {}, None)
+        files = file_table(troot, cfg)
+        mo = {"rf": cfg.get("rf")}
+        full = gm.expected_partition(files, mo, None)
         log = os.path.join(d, "rec.log")
         inputs = inputs_for(cfg, si, ci) if cfg.get("inputs") == "stdin" else None
         res, argv = run_group(cfg, troot, home, None, log, inputs)
@@ -151,13 +173,14 @@ def run_case(arg):
                 continue
             reps = 3 if files.get(sp[0]) and sum(1 for q in files.values() if q["id"] == files[sp[0]]["id"]) > 1 else 1
             for rep_i in range(reps):
-                out.append(_one(cfg, ci, si, troot, home, d, files, full, sp, inputs))
+                out.append(_one(cfg, ci, si, troot, home, d, files, full, sp, inputs, mo))
         return out
     finally:
         scratch.cleanup()
 
 
-def _one(cfg, ci, si, troot, home, d, files, full, sp, inputs=None):
+def _one(cfg, ci, si, troot, home, d, files, full, sp, inputs=None, mo=None):
+    mo = mo or {}
     X, op, nth, en, second = sp
     harmless = op in ("fiemap", "open-fiemap")
     shim_op = "open" if op.startswith("open-") else op
@@ -206,9 +229,10 @@ def _one(cfg, ci, si, troot, home, d, files, full, sp, inputs=None):
             dontcare = sub
     else:
         remaining = {p: v for p, v in files.items() if p not in gone}
-    expected = gm.expected_partition(remaining, {}, None)
-    got_cmp = restrict(got, dontcare, files) if dontcare else got
-    exp_cmp = restrict(expected, dontcare, files) if dontcare else expected
+    expected = gm.expected_partition(remaining, mo, None)
+    singles = bool(mo.get("rf"))
+    got_cmp = restrict(got, dontcare, files, singles) if dontcare else got
+    exp_cmp = restrict(expected, dontcare, files, singles) if dontcare else expected
     # a failed stat whose result fclones did not need (the is-it-a-file probe on an input path; a later stat of the
     # same path succeeds and the file is read completely) legitimately changes nothing
     unaffected = op == "stat" and got == full
@@ -242,7 +266,7 @@ def main(tier, seed, cases=None):
     build.build_rel()
     build.build_shim()
     nscn = 1 if tier == "quick" else 3
-    ncfg = cases or (5 if tier == "quick" else len(CONFIGS))
+    ncfg = cases or len(CONFIGS)
     nchunks = 4 if tier == "quick" else 8
     chk = common.Check("C15", "fault_enumeration", tier, seed, RULE,
                        ["faults are injected at libc level by the shim (root ignores permission bits, so chmod cannot be used)",
